@@ -1,16 +1,56 @@
 import QipVerif.Util.Proto
 import QipVerif.Model.Embed
+import QipVerif.Model.EmbedFlat
+import QipVerif.Model.EmbedArgs
 /-! Driver for the embedding model (C08).
 
 * `validate dims=.. targets=.. opdims=..`  →  `ok` | `err <kind>`
 * `order n=N targets=..`                   →  `ok <new_order>`
 * `row dims=.. targets=.. x=X`             →  `ok Y:a:b,...` for every column `Y` whose
-  element is not forced to 0; `a`,`b` are flat indices into the operator's matrix.
+  element is not forced to 0; `a`,`b` are flat indices into the operator's matrix (digit-tuple model).
+* `flat dims=.. targets=..`                →  `ok <dims of the result>|X:Y:a:b,...` every stored entry of the
+  flat-index model (`EmbedFlat.flatEntryP`) that is not 0, or `err order-<kind>`
+* `frow dims=.. targets=.. x=X`            →  `ok Y:a:b,...` one row of the flat-index model
+* `index dims=<structure> order=..`        →  `ok <new_dimensions>|<index.all()>` (`_Indexer`) | `err order-<kind>`
+* `kron d=D rest=r1,r2,..`                 →  `ok i:j:a:b,...` the non-zero entries of
+  `kron(..kron(P, 1_r1).., 1_rm)` for a `D × D` matrix `P`
+* `args n=<N|none> dims=<..|none> t=<none|iT|lT1,T2,..> opl=.. opr=.. cyclic=0|1`
+                                           →  `ok d1,d2;t1,t2|...` (one group per returned operator) | `err <kind>`
 -/
-open QipVerif QipVerif.Proto QipVerif.Embed
+open QipVerif QipVerif.Proto QipVerif.Embed QipVerif.EmbedFlat QipVerif.EmbedArgs
 
 def errName : Err → String
   | .count => "count" | .range => "range" | .dims => "dims" | .index => "index" | .permute => "permute"
+
+def pErrName : PErr → String
+  | .length => "order-length" | .element => "order-element" | .duplicate => "order-duplicate"
+  | .dimension => "order-dimension"
+
+def aErrName : AErr → String
+  | .val e => errName e | .nosize => "nosize" | .square => "square"
+
+def showCells (cs : List String) : String := ",".intercalate cs
+
+def optNats? (fs : List String) (key : String) : Option (Option (List Nat)) :=
+  match fStr? fs key with
+  | none => none
+  | some "none" => some none
+  | some s => (natList? s).map some
+
+def optNat? (fs : List String) (key : String) : Option (Option Nat) :=
+  match fStr? fs key with
+  | none => none
+  | some "none" => some none
+  | some s => s.toNat?.map some
+
+def tArg? (fs : List String) : Option TArg :=
+  match fStr? fs "t" with
+  | none => none
+  | some "none" => some .none
+  | some s =>
+    if s.startsWith "i" then ((s.drop 1).toString.toInt?).map .int
+    else if s.startsWith "l" then (intList? (s.drop 1).toString).map .list
+    else none
 
 def step (line : String) : String :=
   let fs := fields line
@@ -36,8 +76,61 @@ def step (line : String) : String :=
         match expandEntry N ts x (digits dims Y) with
         | none => none
         | some (a, b) => some s!"{Y}:{undigits od a}:{undigits od b}"
-      "ok " ++ ",".intercalate cells
+      "ok " ++ showCells cells
     | _, _, _ => "bad-op"
+  | some "flat" =>
+    match fNats? fs "dims", fNats? fs "targets" with
+    | some dims, some ts =>
+      match flatDims dims ts with
+      | .error e => "err " ++ pErrName e
+      | .ok nd =>
+        let perm := flatPerm dims ts
+        let rest := restDims dims ts
+        let n := perm.length
+        let cells := (List.range n).flatMap fun X => (List.range n).filterMap fun Y =>
+          match flatEntryP perm rest X Y with
+          | none => none
+          | some (a, b) => some s!"{X}:{Y}:{a}:{b}"
+        "ok " ++ showNats nd ++ "|" ++ showCells cells
+    | _, _ => "bad-op"
+  | some "frow" =>
+    match fNats? fs "dims", fNats? fs "targets", fNat? fs "x" with
+    | some dims, some ts, some X =>
+      match flatDims dims ts with
+      | .error e => "err " ++ pErrName e
+      | .ok _ =>
+        let perm := flatPerm dims ts
+        let rest := restDims dims ts
+        let cells := (List.range perm.length).filterMap fun Y =>
+          match flatEntryP perm rest X Y with
+          | none => none
+          | some (a, b) => some s!"{Y}:{a}:{b}"
+        "ok " ++ showCells cells
+    | _, _, _ => "bad-op"
+  | some "index" =>
+    match fNats? fs "dims", fNats? fs "order" with
+    | some dimsA, some order =>
+      match newDims dimsA order with
+      | .error e => "err " ++ pErrName e
+      | .ok nd => "ok " ++ showNats nd ++ "|" ++ showNats (indexAll dimsA order nd)
+    | _, _ => "bad-op"
+  | some "kron" =>
+    match fNat? fs "d", fNats? fs "rest" with
+    | some d, some rest =>
+      let n := d * prodL rest
+      let cells := (List.range n).flatMap fun i => (List.range n).filterMap fun j =>
+        match tensorIds operEntry rest i j with
+        | none => none
+        | some (a, b) => some s!"{i}:{j}:{a}:{b}"
+      "ok " ++ showCells cells
+    | _, _ => "bad-op"
+  | some "args" =>
+    match optNat? fs "n", optNats? fs "dims", tArg? fs, fNats? fs "opl", fNats? fs "opr", fNat? fs "cyclic" with
+    | some n, some dims, some t, some opl, some opr, some c =>
+      match expandArgs ⟨n, dims, t, opl, opr, c != 0⟩ with
+      | .error e => "err " ++ aErrName e
+      | .ok rs => "ok " ++ "|".intercalate (rs.map fun r => showNats r.1 ++ ";" ++ showNats r.2)
+    | _, _, _, _, _, _ => "bad-op"
   | _ => "bad-op"
 
 def main : IO Unit := serve step
